@@ -284,6 +284,11 @@ func runC14(t *testing.T, sched simrt.Schedule, prog c14Prog) ([]Violation, RunS
 						if out[j].Key == "closed-connection-still-registered" && strings.Contains(out[j].Text, fmt.Sprintf(" of client %d ", c.Idx)) {
 							out[j].Key = key
 						}
+						// ... and a session evicted meanwhile never runs its clean-up (the read loop is stuck in the
+						// swallowed request): the other topics it was attached to keep listing it
+						if (out[j].Key == "terminated-session-attached" || out[j].Key == "unregistered-session-attached") && c.Sid != "" && strings.Contains(out[j].Text, "session "+c.Sid) {
+							out[j].Key = key
+						}
 					}
 				}
 			}
@@ -304,6 +309,28 @@ func runC14(t *testing.T, sched simrt.Schedule, prog c14Prog) ([]Violation, RunS
 					if cj, nj, ok := reqNo(out[j].Text); ok && cj == ci && nj > no {
 						out[j].Key = out[i].Key
 					}
+				}
+			}
+		}
+		// a read loop stuck that way never runs the session's clean-up: when the session is evicted meanwhile (the
+		// account is being deleted) the other topics it is attached to keep listing it. Same finding.
+		for i := range out {
+			if out[i].Key != kAcc && out[i].Key != kDel {
+				continue
+			}
+			var ci int
+			k := strings.Index(out[i].Text, "task client")
+			if k < 0 {
+				continue
+			}
+			if _, err := fmt.Sscanf(out[i].Text[k:], "task client%d.MessageLoop", &ci); err != nil || ci >= len(w.Clients) {
+				continue
+			}
+			// sessions are told from their remote address: 10.0.<0|1>.<1+client>:<port>
+			from1, from2 := fmt.Sprintf("(from 10.0.0.%d:", 1+ci), fmt.Sprintf("(from 10.0.1.%d:", 1+ci)
+			for j := range out {
+				if (out[j].Key == "terminated-session-attached" || out[j].Key == "unregistered-session-attached") && (strings.Contains(out[j].Text, from1) || strings.Contains(out[j].Text, from2)) {
+					out[j].Key = out[i].Key
 				}
 			}
 		}
@@ -366,10 +393,10 @@ func c14Oracle(w *simWorld, homeWaits map[string]bool) (out []Violation) {
 		for s, pssd := range t.sessions {
 			fromTopics[att{s.sid, t.name}] = true
 			if atomic.LoadInt32(&s.terminating) != 0 {
-				out = append(out, vio("C14", "terminated-session-attached", "topic %s still lists terminated session %s", t.name, s.sid))
+				out = append(out, vio("C14", "terminated-session-attached", "topic %s still lists terminated session %s (from %s)", t.name, s.sid, s.remoteAddr))
 			}
 			if _, ok := globals.sessionStore.sessCache[s.sid]; !ok && s.proto != LPOLL {
-				out = append(out, vio("C14", "unregistered-session-attached", "topic %s lists session %s which is not in the session registry", t.name, s.sid))
+				out = append(out, vio("C14", "unregistered-session-attached", "topic %s lists session %s (from %s) which is not in the session registry", t.name, s.sid, s.remoteAddr))
 			}
 			if !s.background && !pssd.isChanSub {
 				online[t.name][pssd.uid.UserId()]++
